@@ -166,7 +166,10 @@ def rule_r2(ctx: Ctx) -> None:
     # listing a namespace
     cons = ctx.func("_namespace._construct_dsdl_definitions_from_namespaces")
     saved = list(APath.FS)
-    APath.FS = ["/w/ns/A.1.0.dsdl", "/w/ns/sub/B.1.0.dsdl"]
+    # ... including what a listing might be tempted to look into: the same definition under both extensions, several minor
+    # versions, the same short name in two namespaces, two definitions with one port-ID
+    fs = ["/w/ns/A.1.0.dsdl", "/w/ns/A.1.0.uavcan", "/w/ns/sub/B.1.0.dsdl", "/w/ns/sub/B.1.1.dsdl", "/w/ns/sub/A.1.0.dsdl", "/w/ns/7000.C.1.0.dsdl", "/w/ns/sub/7000.D.1.0.dsdl"]
+    APath.FS = list(fs)
     del R.CONTENT_ACCESS[:]
     try:
         base = R._hook(ctx, cons.module, [], results={"dsdl_file_sort": lambda xs: list(xs), "file_sort": lambda xs: list(xs)})
@@ -184,12 +187,14 @@ def rule_r2(ctx: Ctx) -> None:
         try:
             got = call_fn(ctx, cons, [[APath("/w/ns")]], hook=hook, keep=tuple(cons.module.functions))
         except (Raised, Unfoldable) as ex:
-            raise AnalysisError("%s: cannot evaluate over the abstract file system: %s" % (cons.short, ex))
+            if not R.CONTENT_ACCESS:
+                raise AnalysisError("%s: cannot evaluate over the abstract file system: %s" % (cons.short, ex))
+            got = []  # the listing went on to act on file contents: reported below
     finally:
         APath.FS = saved
     ctx.count()
     built = [x for x in got if getattr(x, "__dict__", {}).get("_cached_type", "?") is None or True]
-    ctx.check(not R.CONTENT_ACCESS and len(built) == 2, cons.short, "paths only (%d definition objects)" % len(built), "listing a namespace constructs definition objects from paths without reading them", cons.where(), list(R.CONTENT_ACCESS))
+    ctx.check(not R.CONTENT_ACCESS and len(built) == len(fs), cons.short, "paths only (%d definition objects for %d files)" % (len(built), len(fs)), "listing a namespace constructs definition objects from paths without reading them", cons.where(), list(R.CONTENT_ACCESS))
     # a definition being read touches the lookup definitions through equality / metadata only (no text, no read): observed
     w, d = _world()
     o = R.read_own(ctx, own, list(d.values()))
@@ -199,8 +204,57 @@ def rule_r2(ctx: Ctx) -> None:
     ctx.check(not nonmeta, rd.short, "lookup definitions are compared / filtered, never evaluated", "a lookup definition may only be inspected through its path-derived metadata", rd.where(), nonmeta)
 
 
+def rule_r5(ctx: Ctx) -> None:
+    """who may read file contents: only the definition object itself, for its own file"""
+    import ast as _ast
+
+    from ..callgraph import Types
+    from ..core import dotted, norm
+
+    ctx.rule("C19.R5", "file contents are read (open / read_text / read_bytes / the `text` of a definition) only inside the definition class, for its own file: no listing, look-up or cross-definition check opens a definition", min_instances=2)
+    repo = ctx.repo
+    T = Types(repo)
+    rdf = [c for c in repo.all_classes().values() if c.name in ("ReadableDSDLFile", "DSDLFile", "DSDLDefinition")]
+    if not rdf:
+        raise AnalysisError("anchor classes ReadableDSDLFile / DSDLDefinition missing")
+    owners = {c for c in repo.all_classes().values() if any(repo.is_subclass(c, b) for b in rdf)} | set(rdf)
+    inside, outside = [], []
+    exempt = {"_parser._get_grammar": "reads the PEG grammar file shipped with the package, not a definition"}
+    for fn in repo.all_functions().values():
+        if fn.name.startswith("_unittest") or fn.module.name.startswith("pydsdl.third_party") or fn.short in exempt:
+            continue
+        top = fn
+        while top.parent is not None:
+            top = top.parent
+        try:
+            loc = T.locals_of(fn)
+        except Exception:
+            loc = {}
+        for n in _ast.walk(fn.node):
+            what = None
+            if isinstance(n, _ast.Call):
+                name = dotted(n.func) or ""
+                if name in ("open", "io.open", "os.open", "codecs.open") or (isinstance(n.func, _ast.Attribute) and n.func.attr in ("read_text", "read_bytes", "open")):
+                    what = norm(n)[:70]
+            elif isinstance(n, _ast.Attribute) and n.attr == "text" and isinstance(n.ctx, _ast.Load):
+                try:
+                    ty = T.expr(fn, n.value, loc)
+                except Exception:
+                    ty = None
+                if ty and any(c in owners for c in ty.classes):
+                    what = norm(n)[:70]
+            if what is None:
+                continue
+            own_file = top.cls in owners and (("self" in what) or what.startswith("open("))
+            (inside if own_file else outside).append({"function": fn.short, "where": fn.where(n), "access": what})
+    ctx.count(len(inside) + len(outside))
+    ctx.check(bool(inside), "DSDLDefinition", "%d content access site(s) inside the definition class" % len(inside), "positive control: the definition's own text accessor must be recognised as a content access", rdf[0].module.relpath, inside[:3], nontrivial=False)
+    ctx.check(not outside, "pydsdl", "no content access outside the definition class", "the text of a definition that is not being read is never looked at: not when a directory is listed, not to tell copies apart, not to pre-check anything", outside[0]["where"] if outside else "", outside[:4])
+
+
 def run(ctx: Ctx) -> None:
     ctx.attempt(rule_r1_r3_r4, ctx)
     ctx.attempt(rule_r2, ctx)
+    ctx.attempt(rule_r5, ctx)
     ctx.assume("file names in lookup directories are inspected when the directory is listed (allowed by the property)")
     ctx.assume("the model of ReadableDSDLFile.read used for the namespace reader plays the documented protocol: dependencies are read with the same arguments and reported to the visitors; a build prints through the handler it was given")
